@@ -206,18 +206,67 @@ func dischargeAll(cfg *solveCfg, jr *JobResult, sem chan struct{}) {
 			o.Result = Result{Status: "unsat", Solver: "simplifier"}
 			continue
 		}
-		asserts := append([]*Term{}, e.assumes[:o.NAssume]...)
-		asserts = append(asserts, o.Cond, e.tb.Not(o.Goal))
+		base := append([]*Term{}, e.assumes[:o.NAssume]...)
+		if len(o.Parts) > 0 && o.Kind != "vacuity" {
+			dischargeParts(cfg, e, o, base, sem, &wg)
+			continue
+		}
+		asserts := append(base, o.Cond, e.tb.Not(o.Goal))
 		quant := hasQuantifier(asserts)
 		logic := "ALL"
+		// quantifier-free weakening of the hypotheses: tried first, because
+		// a single quantifier takes the solvers off their bit-vector path
+		var weak []*Term
+		if quant && o.Kind != "vacuity" {
+			okW := true
+			for _, a := range asserts {
+				wa, ok := e.tb.Weaken(a)
+				if !ok {
+					okW = false
+					break
+				}
+				weak = append(weak, wa)
+			}
+			if !okW {
+				weak = nil
+			}
+		}
+		mkScripts := func(extra *Term) (string, string) {
+			full := asserts
+			wk := weak
+			if extra != nil {
+				full = append(append([]*Term{}, asserts...), extra)
+				if wk != nil {
+					wk = append(append([]*Term{}, weak...), extra)
+				}
+			}
+			ws := ""
+			if wk != nil {
+				ws = e.tb.Script(wk, e.inputs, logic)
+			}
+			return e.tb.Script(full, e.inputs, logic), ws
+		}
+		run := func(id, full, wk string) Result {
+			if wk != "" {
+				r := solve(cfg, id+".qf", wk, false)
+				if r.Status == "unsat" {
+					r.Attempt = append(r.Attempt, "quantifier-free weakening of the hypotheses")
+					return r
+				}
+				r2 := solve(cfg, id, full, true)
+				r2.Attempt = append(r.Attempt, r2.Attempt...)
+				return r2
+			}
+			return solve(cfg, id, full, quant)
+		}
 		if len(o.Splits) == 0 || o.Kind == "vacuity" {
-			script := e.tb.Script(asserts, e.inputs, logic)
+			full, wk := mkScripts(nil)
 			wg.Add(1)
 			sem <- struct{}{}
 			go func() {
 				defer wg.Done()
 				defer func() { <-sem }()
-				o.Result = solve(cfg, o.ID, script, quant)
+				o.Result = run(o.ID, full, wk)
 			}()
 			continue
 		}
@@ -226,13 +275,13 @@ func dischargeAll(cfg *solveCfg, jr *JobResult, sem chan struct{}) {
 		var pwg sync.WaitGroup
 		for i, sp := range o.Splits {
 			i := i
-			script := e.tb.Script(append(append([]*Term{}, asserts...), sp), e.inputs, logic)
+			full, wk := mkScripts(sp)
 			pwg.Add(1)
 			sem <- struct{}{}
 			go func() {
 				defer pwg.Done()
 				defer func() { <-sem }()
-				parts[i] = solve(cfg, fmt.Sprintf("%s.case%d", o.ID, i), script, quant)
+				parts[i] = run(fmt.Sprintf("%s.case%d", o.ID, i), full, wk)
 			}()
 		}
 		wg.Add(1)
@@ -265,4 +314,101 @@ func dischargeAll(cfg *solveCfg, jr *JobResult, sem chan struct{}) {
 		}()
 	}
 	wg.Wait()
+}
+
+// dischargeParts decides an obligation that is a conjunction over program
+// paths (and possibly a case split): every (part, case) query must be unsat.
+func dischargeParts(cfg *solveCfg, e *Engine, o *Obligation, base []*Term, sem chan struct{}, wg *sync.WaitGroup) {
+	type q struct {
+		id   string
+		full string
+		wk   string
+	}
+	var qs []q
+	splits := o.Splits
+	if len(splits) == 0 {
+		splits = []*Term{nil}
+	}
+	for pi, p := range o.Parts {
+		for si, sp := range splits {
+			asserts := append(append([]*Term{}, base...), p.Cond, e.tb.Not(p.Goal))
+			if sp != nil {
+				asserts = append(asserts, sp)
+			}
+			id := fmt.Sprintf("%s.path%d", o.ID, pi)
+			if sp != nil {
+				id = fmt.Sprintf("%s.case%d", id, si)
+			}
+			wk := ""
+			if hasQuantifier(asserts) {
+				ok := true
+				var weak []*Term
+				for _, a := range asserts {
+					wa, k := e.tb.Weaken(a)
+					if !k {
+						ok = false
+						break
+					}
+					weak = append(weak, wa)
+				}
+				if ok {
+					wk = e.tb.Script(weak, e.inputs, "ALL")
+				}
+			}
+			qs = append(qs, q{id, e.tb.Script(asserts, e.inputs, "ALL"), wk})
+		}
+	}
+	parts := make([]Result, len(qs))
+	var pwg sync.WaitGroup
+	for i, qq := range qs {
+		i, qq := i, qq
+		pwg.Add(1)
+		sem <- struct{}{}
+		go func() {
+			defer pwg.Done()
+			defer func() { <-sem }()
+			if qq.wk != "" {
+				r := solve(cfg, qq.id+".qf", qq.wk, false)
+				if r.Status == "unsat" {
+					parts[i] = r
+					return
+				}
+			}
+			parts[i] = solve(cfg, qq.id, qq.full, true)
+		}()
+	}
+	wg.Add(1)
+	go func() {
+		defer wg.Done()
+		pwg.Wait()
+		res := Result{Status: "unsat"}
+		solvers := map[string]bool{}
+		maxSecs := 0.0
+		for i, r := range parts {
+			res.Secs += r.Secs
+			if r.Secs > maxSecs {
+				maxSecs = r.Secs
+			}
+			if r.Status != "unsat" || len(parts) <= 12 {
+				res.Attempt = append(res.Attempt, fmt.Sprintf("%s:%s:%s:%.2fs", strings.TrimPrefix(qs[i].id, o.ID+"."), r.Solver, r.Status, r.Secs))
+			}
+			solvers[r.Solver] = true
+			if r.Status == "sat" && res.Status != "sat" {
+				res.Status, res.Model, res.Raw, res.Solver = "sat", r.Model, r.Raw, r.Solver
+			}
+			if r.Status != "unsat" && res.Status == "unsat" {
+				res.Status, res.Raw, res.Solver = r.Status, r.Raw, r.Solver
+			}
+		}
+		if res.Status == "unsat" {
+			var ns []string
+			for n := range solvers {
+				ns = append(ns, n)
+			}
+			sort.Strings(ns)
+			res.Solver = strings.Join(ns, "+")
+			res.Attempt = append(res.Attempt, fmt.Sprintf("%d path/case queries, slowest %.2fs", len(parts), maxSecs))
+		}
+		o.Result = res
+	}()
 }
